@@ -458,7 +458,7 @@ fn gen_case(rng: &mut Rng) -> Vec<String> {
         } else if c < 28 {
             ops.push(format!("unlink {} {}", r, rng.pick(&lanes[..3])));
         } else if c < 30 {
-            ops.push(format!("link {} nolane", r));
+            ops.push(format!("{} {} nolane", if rng.chance(1, 2) { "link" } else { "sync" }, r));
         } else if c < 75 {
             n += 1;
             match rng.below(10) {
